@@ -44,7 +44,11 @@ EXEMPT = {
     ("kanata_keyberon::layout::OneShotState", "other_pressed_keys"): "drained together with OneShotState.keys, which the predicate reads",
     ("kanata_keyberon::chord::ChordsV2", "ticks_until_next_state_change"): "counts only while ChordsV2.queue is non-empty, which the predicate reads",
     ("kanata_state_machine::kanata::dynamic_macro::DynamicMacroRecordState", "macro_items"): "changed by key events while recording",
-    ("kanata_state_machine::kanata::Kanata", "cur_cfg_idx"): "changed by the lrld-next/prev/num key actions only (event-driven)",
+    ("kanata_state_machine::kanata::Kanata", "cur_cfg_idx"): "changed by the lrld-next/prev/num key actions and by a finished reload only (event-driven)",
+    ("kanata_state_machine::kanata::Kanata", "loaded_cfg_idx"): "set by a successful reload only (event-driven)",
+    ("kanata_state_machine::kanata::Kanata", "keys_hidden_by_sequence"):
+        "grows when a key is pressed during a hidden-mode sequence and shrinks in the release loop, when that key's release is sent: "
+        "both are driven by key events, nothing counts down",
     ("kanata_state_machine::kanata::dynamic_macro::DynamicMacroRecordState", "current_delay"):
         "recorded inter-key delay; it stops counting only once every covered timer has expired, and replay decisions depend only "
         "on those timers (triaged with notes/triage_harness.rs.txt: stepper and blocking loop replay identically)",
